@@ -194,6 +194,7 @@ def _stress(ctx, tbl, known, race, millis, seed):
             sig = tuple(sorted("%s %s" % (s[0], "%s %s:%d" % (_norm_fn(s[1][0]), s[1][1], s[1][2]) if s[1] else "?") for s in st))
             clusters.setdefault(sig, [0, st])[0] += 1
         n_known = n_new = 0
+        reproduced = {}
         for ci, (sig, (cnt, st)) in enumerate(sorted(clusters.items())):
             if not all(s[1] for s in st):
                 continue  # a stack without a frame in /repo/internal: not ours to judge
@@ -206,6 +207,11 @@ def _stress(ctx, tbl, known, race, millis, seed):
                 for fr in s[3]:
                     keys |= bypos.get("%s:%d" % (fr[1], fr[2]), set()) & badkeys
             kk = sorted(keys & known)
+            # "reproduced" is stricter than "at a known site": the top frame of one of the
+            # two stacks is exactly a position the table flags for that key
+            for s in st:
+                for k in bypos.get("%s:%d" % (s[1][1], s[1][2]), set()) & badkeys & known:
+                    reproduced.setdefault(k, " vs ".join(sig))
             if kk:
                 n_known += 1
                 ctx.fail("property-failure", "data race (known site): " + " vs ".join(sig), finding_key=kk[0], failing_input_found=True,
@@ -223,7 +229,9 @@ def _stress(ctx, tbl, known, race, millis, seed):
                                           "desc": {"kind": "race", "seed": seed, "reports": cnt, "stack_pair": [s[2] for s in st]}}})
         stats.update({"race_reports": sum(c[0] for c in clusters.values()), "race_clusters": len(clusters),
                       "race_clusters_at_known_sites": n_known, "race_clusters_new": n_new,
-                      "translator_gaps": gaps})
+                      "translator_gaps": gaps,
+                      # goal: every known finding that is a data race is reproduced by the search
+                      "known_access_findings_reproduced": reproduced})
     return stats
 
 
@@ -324,7 +332,7 @@ def extra(ctx):
         "exhaustive": False,
         "lock_table": {
             "roots": len(tbl.get("roots") or []),
-            "roots_by_kind": {k: len([r for r in tbl.get("roots") or [] if r.startswith(k + ":")]) for k in ("dns", "http", "go", "dhcp")},
+            "roots_by_kind": {k: len([r for r in tbl.get("roots") or [] if r.startswith(k + ":")]) for k in ("dns", "http", "http-direct", "auth", "go", "dhcp")},
             "functions_reached": tbl.get("functions_reached"),
             "functions_in_repo_packages": tbl.get("functions_total"),
             "guarded_fields_declared": tbl.get("guarded_fields"),
@@ -340,6 +348,10 @@ def extra(ctx):
             "known_findings_no_longer_present": sorted(known - present),
         },
         "stress": stress,
+        "stress_known_access_findings_not_reproduced": (sorted(
+            k for k in known & present if "<" not in k
+            and not any(k in (x.get("known_access_findings_reproduced") or {}) for x in stress))
+            if any(x.get("race_detector") for x in stress) else "n/a (quick tier: no race detector)"),
         "evaluations": sum((x.get("queries") or 0) + (x.get("admin_ops") or 0) for x in stress),
         "samples": [{"root": a["root"], "fn": a["fn"], "field": a["field"], "write": a["write"], "held": a["held"], "pos": a["pos"]}
                     for a in accesses[:: max(1, len(accesses) // 5)][:5]],
